@@ -15,8 +15,12 @@ REPO = os.environ.get("VERIF_REPO", "/repo")
 CACHE = os.path.join(VERIF, ".cache")
 LEAN = os.path.join(VERIF, "lean")
 WORK = os.path.join(VERIF, "work")
-VH = os.path.join(CACHE, "vh-target", "debug", "vh")
-COMPLGEN = os.path.join(CACHE, "repo-target", "debug", "complgen")
+# one cargo target directory per source tree: cargo does not re-link `target/debug/<bin>` for a package it
+# considers fresh, so a directory shared between /repo and an alternative tree (seeded-change runs) would
+# leave the other tree's binary in place
+_ALT = "" if REPO == "/repo" else "-alt"
+VH = os.path.join(CACHE, "vh-target" + _ALT, "debug", "vh")
+COMPLGEN = os.path.join(CACHE, "repo-target" + _ALT, "debug", "complgen")
 DRIVER = os.path.join(LEAN, ".lake", "build", "bin", "cgdriver")
 SHELLS = ["bash", "fish", "zsh", "pwsh"]
 ALLOWED_AXIOMS = {"propext", "Classical.choice", "Quot.sound"}
@@ -206,11 +210,11 @@ def impl_build():
                 shutil.copy(lock_src, lock_dst)
         except OSError:
             pass
-        env = dict(ENV, CARGO_TARGET_DIR=os.path.join(CACHE, "repo-target"))
+        env = dict(ENV, CARGO_TARGET_DIR=os.path.join(CACHE, "repo-target" + _ALT))
         r1 = run(["cargo", "build", "--offline", "--features", "verif"], cwd=REPO, env=env, text=True)
         if r1.returncode != 0:
             return False, r1.stderr
-        env = dict(ENV, CARGO_TARGET_DIR=os.path.join(CACHE, "vh-target"))
+        env = dict(ENV, CARGO_TARGET_DIR=os.path.join(CACHE, "vh-target" + _ALT))
         hdir = os.path.join(VERIF, "harness")
         if REPO != "/repo":
             # an alternative source tree (seeded-change runs): the harness depends on it by path
